@@ -15,6 +15,11 @@ pub assume_specification [VCell::type_text] (v: &VCell) -> (r: &'static str);
         'impl VCell::ptr': {'props': [], 'ensures': ['r == VCell::Ptr(val)']},
         'impl VCell::pair': {'props': [], 'ensures': ['r == VCell::Pair(car, cdr)']},
         'impl VCell::is_pair': {'props': T, 'ensures': ['r == (*self is Pair)']},
+        'impl VCell::is_lambda': {'props': [], 'ensures': ['r == (*self is Lambda)']},
+        'impl VCell::is_closure': {'props': [], 'ensures': ['r == (*self is Closure)']},
+        'impl VCell::is_continuation': {'props': [], 'ensures': ['r == (*self is Continuation)']},
+        'impl VCell::is_builtin_proc': {'props': [], 'ensures': ['r == (*self is BuiltInProc)']},
+        'impl VCell::is_procedure': {'props': [], 'ensures': ['r == (*self is Lambda || *self is Closure || *self is BuiltInProc || *self is Continuation)']},
         'impl VCell::is_nil': {'props': T, 'trusted': True, 'ensures': ['r == (*self is Nil)']},
         'impl VCell::as_ptr': {'props': T, 'trusted': True, 'ensures': ['*self matches VCell::Ptr(p) ==> r == Ok::<usize, Error>(p)', '!(*self is Ptr) ==> r is Err']},
         'impl VCell::as_argc': {'props': T, 'trusted': True, 'ensures': ['*self matches VCell::ArgumentCount(n) ==> r == Ok::<usize, Error>(n)', '!(*self is ArgumentCount) ==> r is Err']},
